@@ -15,29 +15,56 @@ EXTENDS Sbe
 
 CONSTANT MI         \* index of the message under study in S.messages
 
+\* TLC does not cache the two tables below as constants (they are built by
+\* RECURSIVE operators), and re-deriving them at every use dominates the run
+\* time.  They are therefore carried in a ghost variable that every machine
+\* initialises with MemoInit and never changes: a memo, not state.
+VARIABLE memo
+LLeaves == memo.leaves
+LFields == memo.fields
+
 \* ---- static tables of message MI.  Zero-arity constant definitions: TLC
 \* evaluates each once, so the layout rules of Sbe.tla are not re-derived
-\* for every byte that is read.
-LV == Levels(MI)
+\* for every byte that is read.  (A function constructor stays lazy even when
+\* cached - every application would re-evaluate its body; "\o <<>>" turns
+\* it into an explicit tuple.)
+LV == Levels(MI) \o <<>>
 NL == Len(LV)
-LDef == [li \in 1 .. NL |-> LV[li].def]
-LLeaves == [li \in 1 .. NL |-> LevelLeaves(LV[li].def)]
-LBL == [li \in 1 .. NL |-> BlockLength(LV[li].def)]
-LChild == [li \in 1 .. NL |-> [g \in 1 .. Len(LV[li].def.groups) |->
-              LevelIdx(MI, Append(LV[li].path, LV[li].def.groups[g].name))]]
-LParent == [li \in 1 .. NL |-> IF li = 1 THEN 0 ELSE LevelIdx(MI, Front(LV[li].path))]
-LOrd == [li \in 1 .. NL |->
+LDef == ([li \in 1 .. NL |-> LV[li].def]) \o <<>>
+LLeavesDef == ([li \in 1 .. NL |-> LevelLeaves(LV[li].def)]) \o <<>>
+LBL == ([li \in 1 .. NL |-> BlockLength(LV[li].def)]) \o <<>>
+LChild == ([li \in 1 .. NL |-> [g \in 1 .. Len(LV[li].def.groups) |->
+              LevelIdx(MI, Append(LV[li].path, LV[li].def.groups[g].name))] \o <<>>]) \o <<>>
+LParent == ([li \in 1 .. NL |-> IF li = 1 THEN 0 ELSE LevelIdx(MI, Front(LV[li].path))]) \o <<>>
+LOrd == ([li \in 1 .. NL |->
            IF li = 1 THEN 0
            ELSE LET p == LV[LParent[li]].def
-                IN CHOOSE g \in 1 .. Len(p.groups) : p.groups[g].name = Last(LV[li].path)]
-LDimSize == [li \in 1 .. NL |-> IF li = 1 THEN 0 ELSE DimSize(LV[li].def)]
-LDimOff == [li \in 1 .. NL |-> IF li = 1 THEN <<0, 0>>
+                IN CHOOSE g \in 1 .. Len(p.groups) : p.groups[g].name = Last(LV[li].path)]) \o <<>>
+LDimSize == ([li \in 1 .. NL |-> IF li = 1 THEN 0 ELSE DimSize(LV[li].def)]) \o <<>>
+LDimOff == ([li \in 1 .. NL |-> IF li = 1 THEN <<0, 0>>
               ELSE <<CompMemberOff(Dim(LV[li].def), "blockLength"),
-                     CompMemberOff(Dim(LV[li].def), "numInGroup")>>]
-LDimW == [li \in 1 .. NL |-> IF li = 1 THEN <<0, 0>>
+                     CompMemberOff(Dim(LV[li].def), "numInGroup")>>]) \o <<>>
+LDimW == ([li \in 1 .. NL |-> IF li = 1 THEN <<0, 0>>
               ELSE <<CompMemberW(Dim(LV[li].def), "blockLength"),
-                     CompMemberW(Dim(LV[li].def), "numInGroup")>>]
-LLenW == [li \in 1 .. NL |-> [d \in 1 .. Len(LV[li].def.data) |-> LenW(LV[li].def.data[d])]]
+                     CompMemberW(Dim(LV[li].def), "numInGroup")>>]) \o <<>>
+LLenW == ([li \in 1 .. NL |-> [d \in 1 .. Len(LV[li].def.data) |-> LenW(LV[li].def.data[d])] \o <<>>]) \o <<>>
+\* non-constant fields of each level, in order: what cursor accessors exist for
+\* [name, off, size, kind ("scalar": returns a value | "view": composite or
+\* array, returns a view), leaf (index of the scalar's leaf in LLeaves)]
+RECURSIVE NonConstFields(_, _, _)
+NonConstFields(L, lay, k) ==
+  IF k > Len(L.fields) THEN <<>>
+  ELSE IF lay[k] < 0 THEN NonConstFields(L, lay, k + 1)
+  ELSE LET e == FieldEnc(L.fields[k])
+           scalar == (e.kind = "type" /\ e.length = 1) \/ e.kind \in {"enum", "set"}
+       IN <<[name |-> L.fields[k].name, off |-> lay[k], size |-> EncSize(e),
+             kind |-> IF scalar THEN "scalar" ELSE "view"]>>
+          \o NonConstFields(L, lay, k + 1)
+LFieldsDef == ([li \in 1 .. NL |->
+               CHOOSE r \in {NonConstFields(LV[li].def, lay, 1) : lay \in {LevelLayout(LV[li].def)[1]}} : TRUE]) \o <<>>
+MemoInit == memo = [leaves |-> LLeavesDef, fields |-> LFieldsDef]
+LeafOfField(li, name) ==
+  CHOOSE k \in 1 .. Len(LLeaves[li]) : LLeaves[li][k].path = <<name>>
 HSize == HeaderSize
 HBlOff == CompMemberOff(Header, "blockLength")
 HBlW == CompMemberW(Header, "blockLength")
